@@ -37,7 +37,9 @@ def by_value(ctx, fb):
     cl = None
     for p in fb.closures_of(RP):
         f = fb.fn(p)
-        if any(c.callee == C02.DEPS for c in f.calls()) and any(call_is(c, 're:HashMap::<K, V, S(, A)?>::insert$') for c in f.calls()):
+        # the closure that builds the by-value capture map: it inserts Values into a HashMap (found by that alone, so that a
+        # loop over another relation is reported by the rules below rather than as a lost anchor)
+        if any(call_is(c, 're:HashMap::<K, V, S(, A)?>::insert$') and 'Value' in f.local_ty(op_local(c.args[2]) or 0) for c in f.calls()):
             cl = f
     if not ctx.anchor(R, 'by_value_captures closure in run_plan', cl is not None):
         return
